@@ -14,7 +14,9 @@ import (
 	ipfslog "berty.tech/go-ipfs-log"
 	"berty.tech/go-ipfs-log/entry"
 	orbitdb "berty.tech/go-orbit-db"
+	"berty.tech/go-orbit-db/stores/replicator"
 	cid "github.com/ipfs/go-cid"
+	mh "github.com/multiformats/go-multihash"
 	"verif/harness/sim"
 )
 
@@ -30,6 +32,7 @@ type ReplInput struct {
 	Bad        []int            `json:"bad"`
 	Abort      []int            `json:"abort"` // heads announced with a hash that does not match their contents
 	Links      map[string][]int `json:"links"`
+	Ghost      []int            `json:"ghost"` // hashes whose block nobody provides
 	Behaviours []Behaviour      `json:"behaviours"`
 	Mutant     []string         `json:"mutant"`        // ids of behaviours of the Pinned specification
 	LongOutage int              `json:"long_outage_s"` // thorough: one run in which nobody provides the blocks for this many seconds
@@ -119,7 +122,7 @@ func (r *rpRun) setup(tag string) error {
 		return op.GetEntry(), nil
 	}
 	switch r.in.Dag {
-	case "A", "F", "G", "H":
+	case "A", "F", "G", "H", "I":
 		rc, err := r.nodes["c"].Open(addr, "keyvalue", nil)
 		if err != nil {
 			return err
@@ -139,6 +142,13 @@ func (r *rpRun) setup(tag string) error {
 			return err
 		}
 		e4, err := put(rc, "k4")
+		if r.in.Dag == "I" {
+			// entry 4 is written by c on top of entry 2 and of a block nobody provides (5)
+			sum, _ := mh.Sum([]byte("block nobody provides "+tag), mh.SHA2_256, -1)
+			ghost := cid.NewCidV1(cid.DagCBOR, sum)
+			r.ids[ghost.String()] = 5
+			e4, err = mkEntry(ctx, r.nodes["c"], r.nodes["c"].DB.Identity(), addr, kvOp("k4"), []cid.Cid{e2.GetHash(), ghost}, 3)
+		}
 		if err != nil {
 			return err
 		}
@@ -467,6 +477,26 @@ func (r *rpRun) apply(st Step, prev map[string]interface{}) error {
 			r.res.note("%s step %d: fetch of item %d ok=%v, specification ok=%v", r.bid, r.step, item, ok, wantOK)
 			return errDriftR
 		}
+	case "SFetchTimeout":
+		// nobody answers the fetch: it returns when its bound expires, with nothing
+		w := asInt(st.Args[0])
+		item := asInt(specWorkers(prev)[w-1]["item"])
+		p := r.parkedWorkerByItem("repl.fetch", item, d)
+		if p == nil {
+			return fmt.Errorf("worker of item %d not parked before its fetch", item)
+		}
+		h.Release(p)
+		f := r.parkedWorkerByItem("repl.fetched", item, d+replFetchTimeout)
+		if f == nil {
+			r.violate("wedged", fmt.Sprintf("the fetch of a block nobody provides (item %d) does not end: it keeps its slot and, with it, what was fetched meanwhile", item), nil, r.a.ReplStats())
+			return errDriftR
+		}
+		if len(f.Args) >= 5 && f.Args[4] == nil {
+			if l, isLog := f.Args[3].(ipfslog.Log); isLog && l != nil && l.Len() > 0 {
+				r.res.note("%s step %d: the fetch of item %d brought entries although nobody provides its block", r.bid, r.step, item)
+				return errDriftR
+			}
+		}
 	case "SFetchErr":
 		// the read of the block fails: it is denied on the replica for the time of this fetch
 		w := asInt(st.Args[0])
@@ -566,6 +596,9 @@ func (r *rpRun) reach(heads []int) []int {
 	for _, b := range r.in.Bad {
 		bad[b] = true
 	}
+	for _, b := range r.in.Ghost {
+		bad[b] = true
+	}
 	seen := map[int]bool{}
 	stack := append([]int{}, heads...)
 	for len(stack) > 0 {
@@ -589,6 +622,9 @@ func (r *rpRun) reach(heads []int) []int {
 
 const deadlineBudget = 600 * time.Millisecond
 
+// replFetchTimeout: what the harness shortens the replicator's fetch timeout to (0: left as it is)
+var replFetchTimeout time.Duration
+
 func (r *rpRun) run(b Behaviour, idx int) {
 	r.byDeadline = idx%2 == 1
 	r.cancelRank = map[int]int{}
@@ -606,6 +642,10 @@ func (r *rpRun) run(b Behaviour, idx int) {
 		return
 	}
 	defer r.teardown()
+	if r.in.Dag == "I" {
+		replFetchTimeout = 400 * time.Millisecond
+		defer replicator.VerifSetFetchTimeout(replicator.VerifSetFetchTimeout(replFetchTimeout))
+	}
 	h := sim.TheHub
 	mine := func(i int) func(args []interface{}) bool {
 		return func(args []interface{}) bool { return r.isStore(args, i) }
@@ -723,6 +763,9 @@ func (r *rpRun) run(b Behaviour, idx int) {
 	}
 	if len(r.res.Samples) < 3 {
 		r.res.Samples = append(r.res.Samples, map[string]interface{}{"behaviour": b.ID, "actions": briefSteps(b.Steps), "final_log": got})
+	}
+	if r.in.Dag == "I" {
+		return // the store's own Load would wait a minute for the block nobody provides
 	}
 	// stop the replica and start it again from its directory: the valid entries are still there, the refused ones still absent
 	pa := r.nodes["a"].P
@@ -849,6 +892,81 @@ func (r *rpRun) loadCancelled(b Behaviour, idx int, want []int) {
 	}
 }
 
+// unavailableLink (C10): an announcement mixes a valid head with a head of an authorised writer that links to a
+// block nobody provides (the fetch of that block never completes). The valid heads of that announcement, and of
+// honest announcements made afterwards, still become visible.
+func (r *rpRun) unavailableLink(forged bool, nghost int) {
+	if err := r.setup(fmt.Sprintf("unavail%v%d", forged, nghost)); err != nil {
+		r.res.Inconclusive = append(r.res.Inconclusive, r.bid+": setup: "+err.Error())
+		return
+	}
+	defer r.teardown()
+	// the replicator bounds the fetch of one entry (a minute); the bound is shortened for this phase so that it is observed
+	replFetchTimeout = 400 * time.Millisecond
+	defer replicator.VerifSetFetchTimeout(replicator.VerifSetFetchTimeout(replFetchTimeout))
+	r.res.Behaviours++
+	ctx := context.Background()
+	ghosts := []cid.Cid{}
+	for i := 0; i < nghost; i++ {
+		sum, _ := mh.Sum([]byte(fmt.Sprintf("block nobody provides %d", i)), mh.SHA2_256, -1)
+		ghosts = append(ghosts, cid.NewCidV1(cid.DagCBOR, sum))
+	}
+	author, id, who := r.nodes["b"], r.nodes["b"].DB.Identity(), "an authorised writer"
+	if forged {
+		// the head names the authorised writer b as its author and is signed by m, who may not write: Sync lets it through
+		// (it does not check signatures), the log would refuse it at the join
+		fid, err := forgedIdentity(ctx, r.nodes["m"], r.nodes["b"].DB.Identity().ID, "orbitdb")
+		if err != nil {
+			r.res.Inconclusive = append(r.res.Inconclusive, r.bid+": "+err.Error())
+			return
+		}
+		author, id, who = r.nodes["m"], fid, "a non-writer under a forged author"
+	}
+	u, err := mkEntry(ctx, author, id, r.a.Addr, kvOp("k-unavailable"), ghosts, 9)
+	if err != nil {
+		r.res.Inconclusive = append(r.res.Inconclusive, r.bid+": "+err.Error())
+		return
+	}
+	visible := func(ids []int, d time.Duration) (int, bool) {
+		deadline := time.Now().Add(d)
+		for {
+			got := r.logIDs()
+			missing := -1
+			for _, id := range ids {
+				if !contains(got, id) {
+					missing = id
+					break
+				}
+			}
+			if missing < 0 {
+				return 0, true
+			}
+			if time.Now().After(deadline) {
+				return missing, false
+			}
+			time.Sleep(20 * time.Millisecond)
+		}
+	}
+	final := r.in.ReqHeads[fmt.Sprint(r.in.NReq)]
+	want := r.reach(final)
+	hs := []ipfslog.Entry{u}
+	for _, id := range final {
+		hs = append(hs, copyEntry(r.entries[id]))
+	}
+	_ = r.a.S.Sync(ctx, hs) // mixed announcement: the head with the unobtainable links first
+	time.Sleep(300 * time.Millisecond)
+	hs = hs[1:]
+	for i := 0; i < 2; i++ {
+		_ = r.a.S.Sync(ctx, hs) // honest re-announcements
+		time.Sleep(100 * time.Millisecond)
+	}
+	r.res.Comparisons++
+	r.res.Stats["unavailable_link_runs"]++
+	if id, ok := visible(want, 6*time.Second+3*replFetchTimeout); !ok {
+		r.violate("missing", fmt.Sprintf("a head by %s linking to %d block(s) nobody provides was announced together with valid heads %v; they were announced again, honestly, twice: entry %d never becomes visible (replicator: %+v)", who, nghost, final, id, r.a.ReplStats()), want, r.logIDs())
+	}
+}
+
 // fetchErrors: while a request is being served the reads of some blocks fail (a transient error of the block
 // store or of the provider); the reads work again and the request is made again, then a request for a newer head.
 func (r *rpRun) fetchErrors(deny []int) {
@@ -968,6 +1086,15 @@ func replicatorCmd(args []string) int {
 	for i, b := range in.Behaviours {
 		r := &rpRun{in: in, res: res, bid: b.ID}
 		r.run(b, i)
+	}
+	if in.Dag == "B" || in.Dag == "A" {
+		for _, c := range []struct {
+			forged bool
+			n      int
+		}{{false, 1}, {false, 40}, {true, 1}, {true, 40}} {
+			r := &rpRun{in: in, res: res, bid: fmt.Sprintf("unavailable-link-forged=%v-n=%d", c.forged, c.n)}
+			r.unavailableLink(c.forged, c.n)
+		}
 	}
 	if in.Dag == "A" || in.Dag == "G" || in.Dag == "H" {
 		for _, deny := range [][]int{{2}, {1}, {1, 2}, {3}} {
